@@ -234,7 +234,7 @@ func genStateful() *rapid.Generator[*ast.Node] {
 	name := rapid.Custom(func(t *rapid.T) *ast.Node { return ast.NameN(rapid.SampledFrom(gen.Names).Draw(t, "n")) })
 	ctxFns := []string{"string", "length", "uppercase", "lowercase", "trim", "number", "abs", "boolean", "keys", "type", "spread"}
 	return rapid.Custom(func(t *rapid.T) *ast.Node {
-		switch rapid.IntRange(0, 11).Draw(t, "shape") {
+		switch rapid.IntRange(0, 15).Draw(t, "shape") {
 		case 0: // chain into a call
 			return ast.N(ast.Chain, small.Draw(t, "lhs"), ast.CallN(rapid.SampledFrom([]string{"power", "substring", "pad", "append", "join", "split", "contains", "round", "substringBefore"}).Draw(t, "fn"), small.Draw(t, "arg")))
 		case 1: // chain of chains
@@ -257,6 +257,16 @@ func genStateful() *rapid.Generator[*ast.Node] {
 			return ast.N(ast.Cond, ast.CallN("exists", name.Draw(t, "c")), &ast.Node{K: ast.Assign, S: "u", C: []*ast.Node{name.Draw(t, "v")}}, ast.VarN("u"))
 		case 10: // function bound outside a block and called
 			return ast.ArrN(ast.CallE(ast.BlockN(ast.VarN("g")), ast.NumN(1)), &ast.Node{K: ast.Assign, S: "g", C: []*ast.Node{ast.LambdaN([]string{"x"}, "", ast.BinN("&", ast.CallN("string", ast.VarN("x")), ast.CallN("string", ast.VarN("u"))))}}, ast.CallE(ast.VarN("g"), name.Draw(t, "a")), &ast.Node{K: ast.Assign, S: "u", C: []*ast.Node{ast.StrN("!")}})
+		case 11: // a composed function whose first member is a context-defaulting built-in (reached without a call expression)
+			f1 := rapid.SampledFrom([]string{"substringBefore", "substringAfter", "contains", "split", "pad", "match", "join", "lookup", "formatNumber", "replace", "string", "length"}).Draw(t, "f1")
+			f2 := rapid.SampledFrom([]string{"string", "length", "boolean", "type", "count"}).Draw(t, "f2")
+			return ast.N(ast.Chain, small.Draw(t, "lhs"), ast.BlockN(ast.N(ast.Chain, ast.VarN(f1), ast.VarN(f2))))
+		case 12: // a bare built-in handed to a higher-order function
+			f1 := rapid.SampledFrom([]string{"substringBefore", "substringAfter", "contains", "split", "pad", "string", "length", "uppercase", "number", "abs", "keys", "type"}).Draw(t, "f1")
+			return ast.CallN(rapid.SampledFrom([]string{"map", "filter", "each", "sift"}).Draw(t, "hof"), name.Draw(t, "seq"), ast.VarN(f1))
+		case 13: // a built-in bound to a variable and called under a path context with its first argument missing
+			f1 := rapid.SampledFrom([]string{"substringBefore", "substringAfter", "contains", "split", "pad", "string", "length", "uppercase"}).Draw(t, "f1")
+			return ast.BlockN(&ast.Node{K: ast.Assign, S: "g", C: []*ast.Node{ast.VarN(f1)}}, ast.ArrN(ast.PathN(name.Draw(t, "ctx"), ast.CallE(ast.VarN("g"), ast.StrN("a"))), ast.N(ast.Chain, ast.StrN("b-a"), ast.BlockN(ast.N(ast.Chain, ast.VarN("g"), ast.VarN("string"))))))
 		}
 		return chaos.Draw(t, "chaotic")
 	})
